@@ -1056,9 +1056,9 @@ func main() {
 	rng := lib.NewRand(f.Seed)
 	ctl := k4.New(ptUpdSend, ptValSend, ptListener, ptCollLis, ptValLis)
 	tie := res.Tie("k4-pubsub-schedules", "K4",
-		"each case = one scenario (Value or Collection, 1-3 writers x 1-2 writes from {set, add, compare-and-set, delete}, 1-2 subscribers with updates-only / backpressure / PullID options) under one schedule of commit, listener-snapshot, per-listener delivery and subscribe steps forced through the yield points *.beforeSend, bus.send.beforeListener, *.onUpdate.beforeListen (a subscribe may be split at beforeListen, where a commit attempt must block on the lock); store, views and (backpressured) event sequences at quiescence compared with run(model) on the same schedule; non-trivial = a subscriber registered before the last commit; distinct = distinct (scenario, schedule)")
+		"each case = one scenario (Value or Collection, 1-3 writers x 1-2 writes from {set, add, compare-and-set, delete}, 1-2 subscribers with updates-only / backpressure / PullID options) under one schedule of commit, listener-snapshot, per-listener delivery and subscribe steps forced through the yield points *.beforeSend, bus.send.beforeListener, *.onUpdate.beforeListen (a subscribe may be split at beforeListen, where a commit attempt must block on the lock; a commit is also attempted as a lock probe inside the publication of a Delete, scripted for every subscriber option and at random); store, views and (backpressured) event sequences at quiescence compared with run(model) on the same schedule; non-trivial = a subscriber registered before the last commit; distinct = distinct (scenario, schedule)")
 	mon := res.Monitor("converges-hooked",
-		"the property on every hooked execution: fold of each subscriber's received events (seed first) up to the sentinel vs Get/List taken after the writers returned; independent of the model")
+		"the property on every hooked execution: fold of each subscriber's received events (seed first) up to the sentinel vs Get/List taken after the writers returned; independent of the model; a stale view is classified by what the schedule did (write committed inside a Delete's publication / overlapping publications / lossy seed duplicate / serial)")
 	var cases []pending
 	record := func(sc Scenario, o *Outcome) { cases = append(cases, pending{sc, o}) }
 
